@@ -22,11 +22,21 @@
 (*   backup    a = stem, b = extension, c = "rename" | "copy" --           *)
 (*             create_backup(stem.ext, rename)                             *)
 (*   recycle   a = model -- BIOGEME.estimate(recycle=True): reads the      *)
-(*             pickle that sorts last; estimates when there is none        *)
+(*             pickle OF THAT MODEL that sorts last; estimates when the    *)
+(*             model has none                                              *)
+(*   list      a = model, b = extension -- BIOGEME.files_of_type(b): the   *)
+(*             files of that model with that extension; changes nothing    *)
 (*   load      a = file name -- bioResults(pickle_file=a)                  *)
 (*   extcreate / extremove  a = file name -- the user (or another program) *)
 (*             creates / deletes a file: that is how holes in the          *)
 (*             numbering come about                                        *)
+(*                                                                         *)
+(* A file name carries the name of its model: the files of model m with    *)
+(* extension e are m.e and m~NN.e (FileNames!IsFileOf), and every lookup   *)
+(* by model name (recycle, list) is DEFINED by that scheme.  Several       *)
+(* models whose names share a prefix (mode / mode_price, m / m_validation  *)
+(* / m_val_est_1, mode / mode~v2) may live in one directory: each sees its *)
+(* own files only.                                                         *)
 (*                                                                         *)
 (* Predict(names, op) says, from the set of names present, what the        *)
 (* operation does; it is used by the actions below AND by FilesTrace to    *)
@@ -42,6 +52,17 @@
 (*                 the least-numbered free name~NN.ext)                    *)
 (*   LoadsWhatWasWritten  loading the name returned by a write gives the   *)
 (*                 version written then, whatever happened in between      *)
+(*   SeesOwnFilesOnly  what a lookup by model name sees are files of that  *)
+(*                 model, all of them, and the two ways of stating the     *)
+(*                 scheme (parsing a name / generating the candidates)     *)
+(*                 agree                                                   *)
+(*   RecycleOwnModel  the results recycling returns for model m were saved *)
+(*                 by model m (or lay under one of m's names before the    *)
+(*                 history started / were put there by the user), never by *)
+(*                 another model                                           *)
+(*   FoundAreOwn   (only where no model is named like a numbered version   *)
+(*                 of another one) every file that is "of model m" by its  *)
+(*                 name was made by m: the scheme is unambiguous           *)
 (*   RecycleLatest (NOT expected to hold in general, see the check)        *)
 (***************************************************************************)
 EXTENDS FileNames, Json
@@ -53,7 +74,8 @@ CONSTANTS
     MaxEnv,     \* how many of them may be extcreate / extremove
     Slices,     \* number of folds of validate
     MaxIndex,   \* largest candidate index looked at when searching existing pickles
-    Mutant      \* "none" | "overwrite" | "highest": seeded defects of the naming rule
+    Mutant      \* "none" | "overwrite" | "highest": seeded defects of the naming rule;
+                \* "prefix": seeded defect of the lookup (everything that starts with the model name)
 
 VARIABLES dir, clock, log, pre
 vars == <<dir, clock, log, pre>>
@@ -76,40 +98,64 @@ Name(names, base, ext) ==
                                  IN  IF ks = {} THEN Plain(base, ext) ELSE Cand(base, ext, Max(ks) + 1)
       [] OTHER                -> NewName(names, base, ext)
 
-Nothing == [new |-> << >>, gone |-> {}, same |-> << >>, ret |-> "", from |-> ""]
+(***************************************************************************)
+(* The lookup by model name in force                                       *)
+(***************************************************************************)
+Lookup(names, m, e) == IF Mutant = "prefix" THEN LooseFilesOf(names, m, e) ELSE FilesOf(names, m, e)
+\* which of the model's pickles recycling reads: the one that sorts last as a string.  (Under the seeded
+\* defect the set may hold files of other models, whose names sort after "m." and before "m~": any of
+\* them will do to show the defect.)
+PickedBy(names, m) ==
+    LET own == FilesOf(names, m, "pickle")
+        all == Lookup(names, m, "pickle")
+    IN  IF all \ own # {} /\ own \subseteq {Plain(m, "pickle")} THEN CHOOSE n \in all \ own : TRUE
+        ELSE Cand(m, "pickle", LastSorted(FoundIdx(names, m, "pickle")))
+
+\* new  = names created, in order          who  = who makes each of them (a model name, or a label)
+\* gone = names that disappear             same = (copy, source) pairs
+\* ret  = the name reported                from = the pickle read
+\* seen = what the operation's lookup by model name returns ({} when it makes none)
+Nothing == [new |-> << >>, who |-> << >>, gone |-> {}, same |-> << >>, ret |-> "", from |-> "", seen |-> {}]
 
 EstimateNew(names, m) ==
     LET h == Name(names, m, "html")
         p == Name(names \cup {h}, m, "pickle")
     IN  <<h, p>>
 
+FoldModel(m, i) == m \o "_val_est_" \o ToString(i)
 RECURSIVE ValidateNew(_, _, _)
 ValidateNew(names, m, i) ==
     IF i > Slices THEN <<Name(names, m \o "_validation", "pickle")>>
-    ELSE LET e == EstimateNew(names, m \o "_val_est_" \o ToString(i))
+    ELSE LET e == EstimateNew(names, FoldModel(m, i))
          IN  e \o ValidateNew(names \cup Range(e), m, i + 1)
+\* the simulated validation samples are not the estimation results of any model
+RECURSIVE ValidateWho(_, _)
+ValidateWho(m, i) == IF i > Slices THEN <<"(validation of) " \o m>>
+                     ELSE <<FoldModel(m, i), FoldModel(m, i)>> \o ValidateWho(m, i + 1)
 
 Predict(names, op) ==
     CASE op.k = "write" ->
-           LET n == Name(names, op.b, ExtOf(op.a)) IN [Nothing EXCEPT !.new = <<n>>, !.ret = n]
+           LET n == Name(names, op.b, ExtOf(op.a)) IN [Nothing EXCEPT !.new = <<n>>, !.who = <<op.b>>, !.ret = n]
       [] op.k = "dump" ->
-           LET n == Name(names, op.a \o "_dumped", "dat") IN [Nothing EXCEPT !.new = <<n>>, !.ret = n]
+           LET n == Name(names, op.a \o "_dumped", "dat")
+           IN  [Nothing EXCEPT !.new = <<n>>, !.who = <<"(data) " \o op.a>>, !.ret = n]
       [] op.k = "estimate" ->
-           LET e == EstimateNew(names, op.a) IN [Nothing EXCEPT !.new = e, !.ret = e[2]]
+           LET e == EstimateNew(names, op.a) IN [Nothing EXCEPT !.new = e, !.who = <<op.a, op.a>>, !.ret = e[2]]
       [] op.k = "validate" ->
-           [Nothing EXCEPT !.new = ValidateNew(names, op.a, 1)]
+           [Nothing EXCEPT !.new = ValidateNew(names, op.a, 1), !.who = ValidateWho(op.a, 1)]
       [] op.k = "backup" ->
            LET f == Plain(op.a, op.b) IN
            IF f \notin names THEN Nothing
            ELSE LET n == BackupName(names, op.a, op.b) IN
-                [Nothing EXCEPT !.new = <<n>>, !.same = << <<n, f>> >>, !.ret = n,
+                [Nothing EXCEPT !.new = <<n>>, !.who = <<"(backup)">>, !.same = << <<n, f>> >>, !.ret = n,
                                 !.gone = IF op.c = "rename" THEN {f} ELSE {}]
       [] op.k = "recycle" ->
-           LET ks == PresentIdx(names, op.a, "pickle", MaxIndex) IN
-           IF ks = {} THEN LET e == EstimateNew(names, op.a) IN [Nothing EXCEPT !.new = e, !.ret = e[2]]
-           ELSE [Nothing EXCEPT !.from = Cand(op.a, "pickle", LastSorted(ks))]
+           LET fs == Lookup(names, op.a, "pickle") IN
+           IF fs = {} THEN LET e == EstimateNew(names, op.a) IN [Nothing EXCEPT !.new = e, !.who = <<op.a, op.a>>, !.ret = e[2]]
+           ELSE [Nothing EXCEPT !.from = PickedBy(names, op.a), !.seen = fs]
+      [] op.k = "list"      -> [Nothing EXCEPT !.seen = Lookup(names, op.a, op.b)]
       [] op.k = "load"      -> [Nothing EXCEPT !.from = op.a]
-      [] op.k = "extcreate" -> [Nothing EXCEPT !.new = <<op.a>>]
+      [] op.k = "extcreate" -> [Nothing EXCEPT !.new = <<op.a>>, !.who = <<"user">>]
       [] op.k = "extremove" -> [Nothing EXCEPT !.gone = {op.a}]
 
 Enabled(names, op) ==
@@ -151,7 +197,8 @@ Do(op) ==
     \* a created file REPLACES whatever had that name: only the naming rule keeps this from happening
     /\ dir' = [n \in keep \cup created |-> IF n \in created THEN verOf(n) ELSE dir[n]]
     /\ clock' = clock + Len(p.new)
-    /\ log' = Append(log, [op |-> op, new |-> p.new, gone |-> p.gone, ret |-> p.ret, from |-> p.from,
+    /\ log' = Append(log, [op |-> op, new |-> p.new, who |-> p.who, gone |-> p.gone, ret |-> p.ret, from |-> p.from,
+                           seen |-> p.seen,
                            vers |-> [i \in DOMAIN p.new |-> verOf(p.new[i])],
                            loaded |-> IF p.from = "" THEN 0 ELSE dir[p.from],
                            before |-> dir])
@@ -205,6 +252,45 @@ RecycleLatest == \A i \in DOMAIN log :
              /\ ~\E q \in (j + 1)..(i - 1) : WritesPickleOf(log[q].op, log[q]) = e.op.a \/ log[j].ret \in log[q].gone)
             => e.loaded = log[j].vers[IndexIn(log[j].new, log[j].ret)]
 
+(***************************************************************************)
+(* Several models in one directory: every lookup by model name sees the    *)
+(* files of ITS model only                                                 *)
+(***************************************************************************)
+LooksUp(e) == e.op.k = "list" \/ (e.op.k = "recycle" /\ e.from # "")
+LookedExt(e) == IF e.op.k = "list" THEN e.op.b ELSE "pickle"
+
+SeesOwnFilesOnly == \A i \in DOMAIN log :
+    LET e == log[i] IN
+    LooksUp(e) =>
+        \* only files of the model, all of them
+        /\ \A n \in e.seen : IsFileOf(n, e.op.a, LookedExt(e))
+        /\ \A n \in DOMAIN e.before : IsFileOf(n, e.op.a, LookedExt(e)) => n \in e.seen
+        \* reading the names backwards and generating the candidates forwards is the same scheme
+        /\ (\A n \in e.seen : IndexOf(n, e.op.a, LookedExt(e)) <= MaxIndex)
+               => e.seen = {Cand(e.op.a, LookedExt(e), k) : k \in PresentIdx(DOMAIN e.before, e.op.a, LookedExt(e), MaxIndex)}
+
+\* who made the content with version id v: "earlier" (it was in the initial directory), "user", or what
+\* the output operation says (a copy keeps the version of its source, so a backup makes nothing)
+MakerOf(v) ==
+    IF v <= Cardinality(pre) THEN "earlier"
+    ELSE LET i == CHOOSE i \in DOMAIN log : log[i].op.k # "backup" /\ \E j \in DOMAIN log[i].vers : log[i].vers[j] = v
+             j == CHOOSE j \in DOMAIN log[i].vers : log[i].vers[j] = v
+         IN  log[i].who[j]
+
+RecycleOwnModel == \A i \in DOMAIN log :
+    LET e == log[i] IN
+    (e.op.k = "recycle" /\ e.from # "") =>
+        /\ IsFileOf(e.from, e.op.a, "pickle")
+        /\ e.from \in e.seen
+        /\ MakerOf(e.loaded) \in {e.op.a, "earlier", "user"}
+
+\* the models this scenario talks about, and the scheme being unambiguous for them
+ModelsOfOps == {o.b : o \in {x \in Ops : x.k = "write"}}
+               \cup {o.a : o \in {x \in Ops : x.k \in {"estimate", "recycle", "validate", "list"}}}
+ResultExts == {"html", "pickle", "tex", "F12"}
+FoundAreOwn == \A n \in DOMAIN dir : \A m \in ModelsOfOps : \A x \in ResultExts :
+    IsFileOf(n, m, x) => MakerOf(dir[n]) \in {m, "earlier", "user"}
+
 TypeOK == \A n \in DOMAIN dir : dir[n] \in 1..clock
 
 (***************************************************************************)
@@ -215,7 +301,8 @@ Emitted == [pre |-> SetSeq(pre),
             steps |-> [i \in DOMAIN log |->
                          [op |-> log[i].op, new |-> log[i].new, vers |-> log[i].vers,
                           gone |-> SetSeq(log[i].gone), ret |-> log[i].ret,
-                          from |-> log[i].from, loaded |-> log[i].loaded]],
+                          from |-> log[i].from, loaded |-> log[i].loaded,
+                          seen |-> SetSeq(log[i].seen), looks |-> LooksUp(log[i])]],
             final |-> DirSeq(dir)]
 EmitInv == Len(log) = MaxOps => PrintT(ToJson(Emitted))
 =============================================================================
